@@ -76,6 +76,11 @@ SlerpOK(r) ==
         /\ \A i \in 1..Len(SS) : UnitQ(SS[i], E16(t))
         /\ \A i \in 1..Len(SS) : (D!DSign(ts[i]) >= 0 /\ D!DLe(ts[i], D!DOne)) => D!DLe(D!DNeg(E64(t)), Dot4(SS[i], a))
         /\ NearVec(SS[1], a, E16(t)) /\ NearUpToSign(SS[2], b, E16(t))
+        \* euclideanInnerProduct is the 4-D dot product (symmetric); angle4D is the angle between a and b as 4-D unit vectors:
+        \* in [0, pi], with cosine a.b
+        /\ D!DWithin(Num(t, r.eip), dab, E16(t)) /\ r.eipba = r.eip
+        /\ D!DSign(Num(t, r.a4d)) >= 0 /\ D!DLe(D!DNeg(E64(t)), Num(t, r.s4d))       \* (the float nearest pi is above pi)
+        /\ D!DWithin(Num(t, r.c4d), dab, E64(t))
 
 SplineOK(r) ==
     LET t == r.t  q1 == Nums(t, r.q1)  q2 == Nums(t, r.q2)
